@@ -1,6 +1,6 @@
 #!/bin/sh
 # all checks under another seed / tier, outputs to a scratch dir (evidence in /verif stays from the standard run)
-cd /verif
+cd "$(dirname "$0")/.."
 seed=$1; tier=${2:-quick}
 out=/tmp/seed_${seed}_${tier}; mkdir -p $out
 for p in $(python3 -c "import json;print(' '.join(c['property_id'] for c in json.load(open('MANIFEST.json'))['checks']))"); do
